@@ -90,6 +90,8 @@ where
 
         // drop the model here, we don't want to hold the lock for the process() call
         drop(model);
+        #[cfg(crux_verif)]
+        crate::verif::point("core.process_event.after_update");
 
         self.command_spawner.spawn(command);
         self.process()
@@ -113,6 +115,8 @@ where
         Op: Operation,
         // ANCHOR_END: resolve_sig
     {
+        #[cfg(crux_verif)]
+        crate::verif::point("core.resolve.entry");
         let resolve_result = request.resolve(result);
         debug_assert!(resolve_result.is_ok());
 
@@ -128,6 +132,8 @@ where
         self.executor.run_all();
 
         while let Some(capability_event) = self.capability_events.receive() {
+            #[cfg(crux_verif)]
+            crate::verif::point("core.process.received");
             let mut model = self.model.write().expect("Model RwLock was poisoned.");
             let command = self
                 .app
@@ -139,6 +145,8 @@ where
             self.executor.run_all();
         }
 
+        #[cfg(crux_verif)]
+        crate::verif::point("core.process.before_drain");
         self.requests.drain().collect()
     }
     // ANCHOR_END: process
@@ -148,6 +156,19 @@ where
         let model = self.model.read().expect("Model RwLock was poisoned.");
 
         self.app.view(&model)
+    }
+
+    /// Snapshot of the runtime queues (verification accessor)
+    #[cfg(crux_verif)]
+    pub fn verif_stats(&self) -> crate::verif::CoreStats {
+        let (executor_tasks, ready_queue, spawn_queue) = self.executor.verif_stats();
+        crate::verif::CoreStats {
+            executor_tasks,
+            ready_queue,
+            spawn_queue,
+            pending_events: self.capability_events.verif_len(),
+            pending_effects: self.requests.verif_len(),
+        }
     }
 }
 
